@@ -35,6 +35,7 @@ func MatchScenario(t *rapid.T) sim.CScenario {
 		// a transient Send failure: the operation fails, the client stays usable
 		sc.Cfg.Faults = append(sc.Cfg.Faults, sim.Fault{Op: "send", At: rapid.IntRange(1, 4).Draw(t, "faultat"), Kind: "err"})
 	}
+	sc.Cfg.NoHandlers = rapid.IntRange(0, 3).Draw(t, "nohandlers") == 0
 	nops := rapid.IntRange(1, 4).Draw(t, "nops")
 	var want []entry
 	k := 0
@@ -73,7 +74,7 @@ func MatchScenario(t *rapid.T) sim.CScenario {
 	// hostile and foreign members
 	nx := rapid.IntRange(0, 4).Draw(t, "nextra")
 	for j := 0; j < nx; j++ {
-		it := sim.ReplyItem{Kind: pick(t, "xk", []string{"unknown", "nullid", "nonobject", "both", "neither", "strid", "fltid", "badversion", "extrafield", "note", "callback"}), N: 10 + j}
+		it := sim.ReplyItem{Kind: pick(t, "xk", []string{"unknown", "nullid", "nonobject", "both", "neither", "strid", "fltid", "badversion", "extrafield", "note", "callback", "sameidreq", "sameidreq"}), N: 10 + j}
 		if len(want) > 0 {
 			e := pick(t, "xe", want)
 			it.Op, it.I = e.op, e.i
